@@ -310,6 +310,16 @@ where
         #[cfg(feature = "log")]
         log::trace!("control: {}", control);
         match control {
+            // The end has been sent already: `try_end()` repeats the request on every
+            // call, and a handle may be dropped after an `end()` that was abandoned.
+            // There is nothing left to do but to wait for the peer's end; treating the
+            // repeated request as an illegal state would turn a clean end exchange into
+            // an error.
+            SessionControl::End(_)
+                if matches!(
+                    self.session.local_state(),
+                    SessionState::EndSent | SessionState::Discarding | SessionState::Unmapped
+                ) => {}
             SessionControl::End(error) => {
                 // Record the stop reason before the link channel is closed, so
                 // links that fail on the closure observe the reason.
